@@ -29,6 +29,19 @@ BUDGET_S = {"quick": 200, "thorough": 1800}
 def gen(rng, tier):
     n_cases = 60 if tier == "quick" else 700
     for k in range(n_cases):
+        if k % 8 == 5:
+            # systematic: objects assembled through their own API, depot named last, with an arc a -> b (a = the first node added) that the
+            # base timing rule admits and the strict rule refuses, on a cheap route that is too late in the reference (arrival at a is
+            # late because of the way from the depot): a strict object that kept that arc would beat the reference optimum
+            t = rng.choice([Fraction(1), Fraction(3, 2), Fraction(2)])
+            lo_a = Fraction(rng.randint(3, 6))
+            hi_b = lo_a + t + Fraction(1, 2)
+            nodes = [dict(name="D", demand="0", lo="0", hi="inf"), dict(name="a", demand="0", lo=fs(lo_a), hi=fs(lo_a + 1)),
+                     dict(name="b", demand="0", lo="0", hi=fs(hi_b))]
+            arcs = [["a", "b", fs(t), "1"], ["D", "a", fs(lo_a + Fraction(3, 4)), "1"], ["b", "D", "1", "1"], ["D", "b", "1", fs(Fraction(rng.randint(3, 6)))],
+                    ["a", "D", "1", fs(Fraction(rng.randint(3, 6)))]]
+            yield dict(spec=dict(nodes=nodes, arcs=arcs, cap="100", init="50"), via="wrapper", arcs_before_depot=rng.choice([1, len(arcs)]))
+            continue
         ncust = rng.choice([1, 2, 2, 2, 3])
         if rng.random() < 0.7:
             spec, info = VU.gen_planted(rng, ncust=ncust, extra_arc_p=rng.choice([0.2, 0.5, 0.9]), wide=True)
@@ -184,7 +197,23 @@ def run_case(case, drv):
     if ncust <= 2:
         out = {}
         for strict in (False, True):
-            sb = SequenceBasedRoutingProblem(v, strict=strict)
+            if case.get("via") == "wrapper":
+                # the sequence-based objects are assembled through their OWN add_node / add_arc / set_depot as well (same call order:
+                # customers first, some arcs, then the depot is named, then the remaining arcs).  In strict mode an arc out of the
+                # future depot offered before set_depot may be refused (fewer arcs: the strict optimum can only grow)
+                sb = SequenceBasedRoutingProblem(strict=strict)
+                sb.set_vehicle_cap(VU.val(spec["cap"]))
+                sb.set_initial_loading(VU.val(spec["init"]))
+                for nd in spec["nodes"][1:] + spec["nodes"][:1]:
+                    sb.add_node(nd["name"], VU.val(nd["demand"]), (VU.val(nd["lo"]), VU.val(nd["hi"])))
+                kb = case.get("arcs_before_depot", 0)
+                for a in spec["arcs"][:kb]:
+                    sb.add_arc(a[0], a[1], VU.val(a[2]), VU.val(a[3]))
+                sb.set_depot(spec["nodes"][0]["name"])
+                for a in spec["arcs"][kb:]:
+                    sb.add_arc(a[0], a[1], VU.val(a[2]), VU.val(a[3]))
+            else:
+                sb = SequenceBasedRoutingProblem(v, strict=strict)
             sb.set_max_vehicles(ncust)
             sb.set_max_sequence_length(ncust + 2)
             out[strict] = constrained_opt(sb)
